@@ -330,6 +330,10 @@ func (v *VLA) Unmarshal(payload []byte) (int, error) {
 		payload: payload,
 	}
 
+	// do not accumulate onto the result of an earlier call
+	v.ActiveSpatialLayer = nil
+	v.HasResolutionAndFramerate = false
+
 	err := v.unmarshalSpatialLayers(ctx)
 	if err != nil {
 		return ctx.offset, err
